@@ -24,6 +24,31 @@ ExportLine(line) ==
             [format |-> "TXT", charset |-> "UTF-8", openOptions |-> <<"WRITE", "CREATE", "APPEND">>]).exitValue = 0
 
 Export(id, rule, data, exp, sc, fl) == ExportLine(CaseLine(id, rule, data, exp, sc, fl))
+\* relational case: rule2 is a second spelling that must behave identically in the implementation
+Export2(id, rule, rule2, data, exp, sc, fl) ==
+  ExportLine(ToJson([id |-> id, rule |-> rule, rule2 |-> rule2, data |-> data,
+                     exp |-> [ok |-> exp.ok, v |-> exp.v, log |-> exp.log], sc |-> sc, fl |-> fl]) \o "\n")
+
+\* the 35 operator names in a fixed order
+OpSeq == <<K_eq, K_ne, K_seq, K_sne, K_not, K_notnot, K_lt, K_lte, K_gt, K_gte, K_add, K_sub, K_mul, K_div, K_mod,
+           K_max, K_min, K_merge, K_in, K_cat, K_substr, K_log, K_var, K_missing, K_missing_some,
+           K_if, K_tern, K_or, K_and, K_map, K_filter, K_reduce, K_all, K_some, K_none>>
+\* the property whose statement owns the VALUE computed by an operator
+OwnerOf(k) == CASE k \in {K_eq, K_ne} -> "C07"
+                [] k \in {K_seq, K_sne} -> "C08"
+                [] k \in {K_lt, K_lte, K_gt, K_gte} -> "C09"
+                [] k \in {K_add, K_sub, K_mul, K_div, K_mod, K_max, K_min} -> "C10"
+                [] k = K_var -> "C11"
+                [] k \in {K_missing, K_missing_some} -> "C12"
+                [] k \in {K_map, K_filter, K_reduce} -> "C13"
+                [] k \in {K_all, K_some, K_none} -> "C14"
+                [] k \in {K_merge, K_in} -> "C15"
+                [] k \in {K_cat, K_substr} -> "C16"
+                [] k \in {K_if, K_tern, K_and, K_or} -> "C05"
+                [] k \in {K_not, K_notnot} -> "C06"
+                [] k = K_log -> "C17"
+Tier == IOEnv.VERIF_TIER
+Deep == Tier = "thorough"
 
 \* does an outcome depend on a number text the specification does not know?
 RECURSIVE ValUnknown(_)
